@@ -198,9 +198,9 @@ def build(unit_path, repo, canary=False):
                     cl, j2 = cont_lines(j)
                     spec.inserts.append((base[1:], k_, None, cl))
                     j = j2
-                elif base == "@tail":
+                elif base in ("@tail", "@bodystart"):
                     cl, j2 = cont_lines(j)
-                    spec.inserts.append(("tail", 1, None, cl))
+                    spec.inserts.append((base[1:], 1, None, cl))
                     j = j2
                 elif base in ("@before", "@after", "@before?", "@after?"):
                     nth = int(dd.split("/")[1].split("[")[0]) if "/" in dd else 1
@@ -385,6 +385,10 @@ def _splice(u, text, spec, file, line0, name, where):
     for ins_ in spec.inserts:
         (kind, nth, needle, lines) = ins_[:4]
         opt_props = ins_[4] if len(ins_) > 4 else None
+        if kind == "bodystart":
+            nl = body.find("\n")
+            ins.append(((nl + 1) if nl >= 0 else 1, ("text", lines)))
+            continue
         if kind == "tail":
             # before the line of the function's tail expression = last non-blank line before the closing brace
             c = R.match_close(bb, 0)
